@@ -17,6 +17,9 @@ equations with complex-dtype coefficients the damped rigid-body step coefficient
                                       in the real-dtype path (`rigidVelo_velocity_exact`);
 * `complex_unc_rb_fixed_undamped_unchanged`   with `pc.rbd is None` and `pc.beta_rb is None` the patched rows are today's
                                       rows (same definitions: the same doubles);
+* `complex_unc_rb_rows_fixed_spec`     the system level (`cplxUncRbRowsFixedG`, what the driver runs): every row is
+                                      `cplxUncRbDVFixed` / `cplxUncRbAccFixed` with one flag `anyDamped` that is false only
+                                      if every `b/m` is zero, and a regime that is `none` only if every row is undamped;
 * `complex_unc_damped_rb_counterexample_fixed`   the input of `complex_unc_damped_rb_counterexample` now gives
                                       `(d, v, a) = (e⁻¹, 1 − e⁻¹, e⁻¹)`: `m a + b v = f` holds.
 -/
@@ -189,7 +192,53 @@ theorem complex_unc_damped_rb_counterexample_fixed :
       List.zipWith_nil_right]
     norm_num
 
+/-! ### the system level -/
+
+/-- the system level of the patched rows (`cplxUncRbRowsFixedG`, what the driver runs): row `i` of the result is
+`cplxUncRbDVFixed` / `cplxUncRbAccFixed` of row `i` of the input with ONE flag `anyDamped` and a regime `r` such that
+`anyDamped = false` only if the row's `b/m` is zero (the hypothesis `ha` of `complex_unc_rb_exact_fixed`), and
+`r = none` (today's loop) only if `regimeOf` puts the row in the undamped regime, else `r` is `regimeOf (b/m)` -/
+theorem complex_unc_rb_rows_fixed_spec (regimeOf : ℝ → Option Regime) (order1 : Bool) (h : ℝ)
+    (rows : List (Option ℝ × ℝ × (ℝ × ℝ) × List ℝ)) (i : ℕ) (row : Option ℝ × ℝ × (ℝ × ℝ) × List ℝ)
+    (out : Option Regime × List (ℝ × ℝ) × List ℝ) (hrow : rows[i]? = some row)
+    (hout : (cplxUncRbRowsFixedG regimeOf (fun x => x == 0) order1 h rows)[i]? = some out) :
+    ∃ (anyDamped : Bool) (r : Option Regime),
+      out = (r, cplxUncRbDVFixed order1 h row.1 row.2.1 r row.2.2.1 row.2.2.2,
+        cplxUncRbAccFixed anyDamped row.1 row.2.1
+          ((cplxUncRbDVFixed order1 h row.1 row.2.1 r row.2.2.1 row.2.2.2).map Prod.snd) row.2.2.2) ∧
+      (anyDamped = false → cplxUncRbBeta row.1 row.2.1 = 0) ∧
+      ((r = none ∧ regimeOf (cplxUncRbBeta row.1 row.2.1) = some .rigid) ∨
+        r = regimeOf (cplxUncRbBeta row.1 row.2.1)) := by
+  simp only [cplxUncRbRowsFixedG, List.getElem?_map, List.getElem?_zip_eq_some, Option.map_eq_some_iff] at hout
+  obtain ⟨⟨row', reg⟩, ⟨h1, h2⟩, rfl⟩ := hout
+  rw [hrow] at h1
+  obtain rfl := Option.some.inj h1
+  obtain ⟨a, ⟨a1, ha1, rfl⟩, hreg⟩ := h2
+  rw [hrow] at ha1
+  obtain rfl := Option.some.inj ha1
+  simp only at hreg
+  subst hreg
+  refine ⟨_, _, rfl, ?_, ?_⟩
+  · intro ha
+    simp only [List.any_eq_false, List.mem_map, forall_exists_index, and_imp, forall_apply_eq_imp_iff₂,
+      Bool.not_eq_true, Bool.not_eq_false', beq_iff_eq] at ha
+    exact ha row (List.mem_of_getElem? hrow)
+  · by_cases hall : ((List.map regimeOf (List.map (fun r => cplxUncRbBeta r.1 r.2.1) rows)).all fun r =>
+        r == some Regime.rigid) = true
+    · left
+      refine ⟨if_pos hall, ?_⟩
+      simp only [List.all_eq_true, List.mem_map, forall_exists_index, and_imp, forall_apply_eq_imp_iff₂,
+        beq_iff_eq] at hall
+      exact hall row (List.mem_of_getElem? hrow)
+    · right
+      exact if_neg hall
+
 /-! ### non-vacuity -/
+
+/-- non-vacuity of `complex_unc_rb_rows_fixed_spec`: a one-row system has a row `0` on both sides -/
+example : ∃ out, (cplxUncRbRowsFixedG (fun _ : ℝ => some Regime.rigidFull) (fun x => x == 0) false (1 : ℝ)
+    [(some 1, 1, (0, 0), [1, 1])])[0]? = some out := ⟨_, rfl⟩
+
 
 /-- `RbRegimeExact` is inhabited on both sides -/
 example : RbRegimeExact (some .rigidFull) 1 ∧ RbRegimeExact none 0 ∧ RbRegimeExact (some .rigid) 0 :=
